@@ -360,6 +360,15 @@ int main(int argc, char **argv) {
     sim_images_init();
     int rc = 0;
     if (strcmp(argv[1], "compile") == 0) { rc = cmd_compile(argc, argv); goto out; }
+    if (strcmp(argv[1], "conform") == 0) {
+        extern void *conform_sim_task(void *); extern Buf conform_out;
+        sim_reset(); default_knobs(); sim_seed(1);
+        sim_spawn_fn("conform", conform_sim_task, NULL, 0);
+        int r = sim_run();
+        fwrite(conform_out.d, 1, conform_out.len, stdout);
+        if (r) { printf("sim did not reach quiescence\n"); rc = 1; }
+        goto out;
+    }
 
     corpus_load();
     bool replay = strcmp(argv[1], "replay") == 0;
